@@ -218,3 +218,30 @@ PROPS["C14"] = D("cases are seeded histories against a real Serf node whose snap
     quick=(2500, 60), thorough=(100000, 1200),
     engine="D snapshot disk simulator + A replica simulator",
     real=REAL_D + ["package serf (full node), memberlist (passive)"], simulated=SIM_D + SIM_A)
+
+# Workload added while closing gaps shown by the seeded defects of rounds 3 and 4 (DESIGN 10.4):
+# the distinctness rule of each check stays as stated, the case space grew by these ingredients.
+_ADDED = {
+    "C05": "a join with ignore-old that reaches nobody, then events that must be delivered",
+    "C06": "calls refused for size among the concurrent calls; incoming state syncs with absent clocks",
+    "C07": "replies racing with the closing timer after the deadline; explicit Close() steps",
+    "C08": "filters reduced to their type byte and well-formed filters cut short; failing datagram sends; a late query at the window edge; id re-use one window later",
+    "C09": "the largest 64-bit Lamport time among the adversarial field values",
+    "C12": "graceful shutdown as the very next thing after a fault",
+    "C14": "the whole history on a time base of 0, 2^32, 2^63 or 2^64-4096; snapshots that start just below the compaction size",
+    "C15": "network coordinates switched off in one case in four",
+    "C16": "network coordinates switched off in one case in four; one member flapping 1040-1240 times without the application reading (snapshot on), every join/update carrying a new tag revision",
+    "C17": "application channel of capacity 1, 2 or 4096, drained in steps",
+    "C18": "application channel of capacity 1, 2 or 4096, drained in steps; Lamport times 2^63 apart and near 2^64",
+    "C20": "reset storms: a well-formed peer absurdly far away, then 3-24 observations of one peer with an extreme finite error",
+    "C22": "requests that meet an unwritable keyring file (its directory is gone for the duration of the request; 15 % of requests)",
+    "C23": "successful replies that carry a truncation message; replies with omitted fields",
+    "C24": "pipelining clients: 2-5 requests (handshake, auth, members, stats) written in one piece",
+    "C25": "stream requests re-using the sequence number of an open stream; filters and event names that contain the separator",
+    "C29": "the underlying output reports an error for one line; monitors attached a second time while attached",
+    "C34": "the moment the node logs its shutdown is recorded; dials are attributed to the calling task",
+    "C35": "sends to one member fail while a reply is relayed; members announce new tags between replies",
+    "C36": "well-formed replies cut short by 1-30 bytes; votes that find the node left or one second into a Leave",
+}
+for _p, _t in _ADDED.items():
+    PROPS[_p]["rule"] += "; also: " + _t
